@@ -159,6 +159,21 @@ def c17_consts():
     calls = _calls(fn, "replace")
     _need(len(calls) == 1 and [a.value for a in calls[0].args] == ["\\n", "\n"], "clean_utterance_content: replace('\\\\n', '\\n')")
 
+    # does clean_utterance_content skip non-str values? (`if utterance:` vs `... and isinstance(utterance, str)`)
+    ifs = [n for n in fn.body if isinstance(n, ast.If)]
+    _need(len(ifs) == 1, "clean_utterance_content: one `if` expected")
+    t = ast.unparse(ifs[0].test)
+    if t == "utterance":
+        r["clean_guarded"] = False
+    elif "isinstance(utterance, str)" in t:
+        r["clean_guarded"] = True
+    else:
+        raise TranslatorError("C17: clean_utterance_content: unknown guard " + t)
+    # the context-variable branch of generate_bot_message hands the value over unchanged
+    src = ast.unparse(_func(gen, "generate_bot_message"))
+    _need("bot_utterance = context[bot_intent[1:]]" in src and "bot_utterance = clean_utterance_content(bot_utterance)" in src,
+          "generate_bot_message: `$name` branch / clean_utterance_content call shape")
+
     fn = _func(gen, "generate_intent_steps_message")
     sl = _startswith_slices(fn)
     for want in [("user ", 5), ("User intent: ", 13), ("bot ", 4), ("Bot intent: ", 12)]:
@@ -218,6 +233,17 @@ def c17_consts():
                      and c.func.id in ("eval", "exec", "literal_eval", "compile", "eval_expression")})
     _need(evals1 == ["literal_eval"], f"v1 generate_value: evaluators {evals1}")
     r["value_evaluators"] = evals
+    # _is_supported_value: the unstorable atoms and whether dict KEYS are checked
+    sv = _func(_parse(GEN2), "_is_supported_value")
+    src = ast.unparse(sv)
+    _need("value is Ellipsis" in src and "(bytes, complex)" in src, "_is_supported_value: Ellipsis / bytes / complex expected")
+    _need("(list, tuple, set, frozenset)" in src, "_is_supported_value: sequence branch expected")
+    dict_ifs = [n for n in sv.body if isinstance(n, ast.If) and "isinstance(value, dict)" in ast.unparse(n.test)]
+    _need(len(dict_ifs) == 1, "_is_supported_value: one dict branch expected")
+    body = ast.unparse(dict_ifs[0])
+    _need("_is_supported_value(v)" in body, "_is_supported_value: dict values must be checked")
+    r["value_keys_checked"] = "_is_supported_value(k)" in body
+    _need("_is_supported_value(result)" in ast.unparse(fn), "v2 generate_value: the result must go through _is_supported_value")
     return r
 
 
@@ -250,6 +276,8 @@ def emit(r):
         f"Definition c_internal_error_intent : string := {cs(r['internal_error_intent'])}.",
         f"Definition strip_quotes_guarded : bool := {coq_bool(r['strip_quotes_guarded'])}.",
         f"Definition validate_wrapped : bool := {coq_bool(r['validate_wrapped'])}.",
+        f"Definition clean_guarded : bool := {coq_bool(r['clean_guarded'])}.",
+        f"Definition value_keys_checked : bool := {coq_bool(r['value_keys_checked'])}.",
         f"Definition c_max_multi_step_lines : nat := {r['max_multi_step_lines']}.",
         f"Definition start_flow_contained : bool := {coq_bool(r['start_flow_contained'])}.",
         f"Definition render_only_predefined : bool := {coq_bool(r['render_only_predefined'])}.",
